@@ -2,6 +2,7 @@ package script
 
 import (
 	"os"
+	"strings"
 	"sync"
 	"time"
 
@@ -27,17 +28,39 @@ func Run(c *vrun.Ctx) error {
 	tm := 25 * time.Minute
 	var lanes [][]func() error
 	prog := func(p progRun) func() error { return func() error { return b.runProg(p) } }
+	sim := func(name, run string, num, depth int) func() error {
+		return func() error { return b.runSim(name, run, num, depth) }
+	}
 	if !th {
 		lanes = [][]func() error{
-			{prog(progRun{name: "quick", runs: []string{"small3", "unitq", "core2", "lock", "sigu", "sig2"}, workers: 4, timeout: tm})},
-			{b.runSeq},
+			{prog(progRun{name: "quick", runs: []string{"small3", "unitq", "skip3", "core2", "lock", "sigu", "sig2"}, workers: 4, timeout: tm})},
+			{b.runSeq, sim("sim", "sim", 12, 32)},
 			{b.runPumps},
 		}
 	} else {
 		lanes = [][]func() error{
-			{prog(progRun{name: "thorough-a", runs: []string{"core3", "sig3", "lock", "sigu"}, workers: 3, timeout: tm})},
+			{prog(progRun{name: "thorough-a", runs: []string{"core3", "sig3", "lock", "sigu", "skip3"}, workers: 3, timeout: tm})},
 			{prog(progRun{name: "thorough-b", runs: []string{"unit", "small4", "core2m"}, workers: 3, timeout: tm})},
-			{b.runSeq, b.runPumps},
+			{b.runSeq, b.runPumps, prog(progRun{name: "coverage", runs: []string{"core2"}, workers: 1, timeout: tm, coverage: true}),
+				sim("sim", "sim", 600, 40)},
+			{sim("simcore", "simcore", 250, 40)},
+		}
+	}
+	// development aid: VERIF_C06_ONLY=prog|seq|pump|sim runs one part only
+	if only := os.Getenv("VERIF_C06_ONLY"); only != "" {
+		switch only {
+		case "prog":
+			lanes = lanes[:1]
+		case "seq":
+			lanes = [][]func() error{{b.runSeq}}
+		case "pump":
+			lanes = [][]func() error{{b.runPumps}}
+		case "sim":
+			lanes = [][]func() error{{sim("sim", "sim", 12, 32)}}
+		default:
+			if strings.HasPrefix(only, "runs:") {
+				lanes = [][]func() error{{prog(progRun{name: "only", runs: strings.Split(only[5:], ","), workers: 4, timeout: tm})}}
+			}
 		}
 	}
 	var wg sync.WaitGroup
